@@ -58,9 +58,70 @@ def build_world(ctx):
     w.rsa2 = paramiko.RSAKey.generate(1024)      # "another key of the same type" (only equality matters)
     w.ed = paramiko.Ed25519Key.from_private_key_file(os.path.join(sup, "ed25519.key"))
     w.p256 = paramiko.ECDSAKey.from_private_key_file(os.path.join(sup, "ecdsa-256.key"))
+    w.near_miss = near_miss_keys(paramiko, w.rsa)
     from paramiko.message import Message
     w.Message = Message
     return w
+
+
+def near_miss_keys(paramiko, known):
+    """RSA keys (with private halves, so a server can really sign with them) that differ from `known` but that a
+    comparison weaker than 'same key blob' takes for it: a modulus congruent to the known one modulo the
+    interpreter's hash modulus (equal Python hash of every field), and the same modulus with another exponent."""
+    import random
+    import sys as _sys
+    from math import gcd
+    from cryptography.hazmat.primitives.asymmetric import rsa
+    rng = random.Random("C17-near-miss")
+    n, e = known.public_numbers.n, known.public_numbers.e
+    M = _sys.hash_info.modulus
+
+    def is_prime(x):
+        for sp in (2, 3, 5, 7, 11, 13, 17, 19, 23, 29, 31, 37):
+            if x % sp == 0:
+                return x == sp
+        d, r = x - 1, 0
+        while d % 2 == 0:
+            d //= 2
+            r += 1
+        for _ in range(24):
+            y = pow(rng.randrange(2, x - 1), d, x)
+            if y in (1, x - 1):
+                continue
+            for _ in range(r - 1):
+                y = pow(y, 2, x)
+                if y == x - 1:
+                    break
+            else:
+                return False
+        return True
+
+    def build(p, q, e_, n_):
+        d = pow(e_, -1, (p - 1) * (q - 1))
+        return paramiko.RSAKey(key=rsa.RSAPrivateNumbers(p, q, d, d % (p - 1), d % (q - 1), pow(q, -1, p),
+                                                         rsa.RSAPublicNumbers(e_, n_)).private_key())
+
+    out = {}
+    half = max(256, known.get_bits() // 2)
+    while "rsa-hash-collider" not in out:
+        p = rng.getrandbits(half) | (1 << (half - 1)) | 1
+        if not is_prime(p) or gcd(e, p - 1) != 1 or p % M == 0:
+            continue
+        q = (n % M) * pow(p, -1, M) % M + (rng.getrandbits(half - 61) | (1 << (half - 62))) * M
+        for _ in range(4000):
+            if q % 2 and gcd(e, q - 1) == 1 and is_prime(q):
+                break
+            q += M
+        else:
+            continue
+        if (p * q) % M == n % M and p * q != n:
+            out["rsa-hash-collider"] = build(p, q, e, p * q)
+    pn = known.key.private_numbers()
+    for e2 in (65537, 257, 17):
+        if e2 != e and gcd(e2, (pn.p - 1) * (pn.q - 1)) == 1:
+            out["rsa-other-exponent"] = build(pn.p, pn.q, e2, n)
+            break
+    return out
 
 
 # --------------------------------------------------------------------------
@@ -637,9 +698,16 @@ def cconnect_cases(ctx, w):
                 (c[0] == "none" and c[2] in ("reject", "autoadd") and c[3] == 22) or
                 (c[0] in ("same", "hashed-same", "same-under-lowercased-name") and c[2] in ("reject", "autoadd"))]
         combos = base_combos + keep
-    kid = {"rsa": (1, 5), "rsa2": (1, 6), "ed": (2, 7)}
-    for known, where, pol, port, adv, entry, host in combos:
-        s = Session(w, advertise=ADVERTISE_NAMES.get(adv))
+    combos = [c + ("rsa",) for c in combos]
+    # a server presenting a DIFFERENT key that a weak comparison takes for the stored one
+    for sk in sorted(w.near_miss):
+        for k in ("same", "hashed-same", "same+other-type"):
+            for pol in ("reject", "autoadd"):
+                for entry in (("password-arg", "auth-strategy") if ctx.thorough else ("password-arg",)):
+                    combos.append((k, "user", pol, 22, None, entry, "host17", sk))
+    kid = {"rsa": (1, 5), "rsa2": (1, 6), "ed": (2, 7), "rsa-hash-collider": (1, 8), "rsa-other-exponent": (1, 9)}
+    for known, where, pol, port, adv, entry, host, sk in combos:
+        s = Session(w, advertise=ADVERTISE_NAMES.get(adv), host_key=w.near_miss.get(sk))
         calls, accepted = [], []
 
         raised = []
@@ -748,9 +816,9 @@ def cconnect_cases(ctx, w):
             bracket = ids["[%s]:%d" % (host, port)]
             neg_gss = bool(s.tc.c17_kex and str(s.tc.c17_kex).startswith("gss"))      # what was NEGOTIATED
             adv_gss = any(str(x).startswith("gss-") for x in s.tc.c17_peer_kex)          # what the peer ADVERTISED
-            text = "(%s, (%s, %s), (1, %d, %d), %s, (%s, %s, %s), (1, 5))" % (
-                coq(hm), sysm, usrm, bracket, port, polm, coq(neg_gss), coq(adv_gss), coq(kex_ok))
-            case = {"known_hosts": known, "where": where, "policy": pol, "port": port, "entry_point": entry,
+            text = "(%s, (%s, %s), (1, %d, %d), %s, (%s, %s, %s), (%d, %d))" % (
+                coq(hm), sysm, usrm, bracket, port, polm, coq(neg_gss), coq(adv_gss), coq(kex_ok), kid[sk][0], kid[sk][1])
+            case = {"server_key": sk, "known_hosts": known, "where": where, "policy": pol, "port": port, "entry_point": entry,
                     "hostname": host, "server_advertises_kex": ADVERTISE_NAMES.get(adv), "negotiated_kex": s.tc.c17_kex}
             if adv and kex_ok and (adv_gss != (adv == "gss")):
                 ctx.fail("harness-advertised-kex-not-seen", "the server's extra kex names did not reach the client",
@@ -764,13 +832,14 @@ def cconnect_cases(ctx, w):
                          "(SSHClient.connect skips host key checking on this flag)", case=case,
                          expected=neg_gss, observed=bool(s.tc.gss_kex_used))
             rows.append((case, text, impl))
-            ctx.count(("cconnect", known, where, pol, port, adv, entry, host), nontrivial=True,
+            ctx.count(("cconnect", known, where, pol, port, adv, entry, host, sk), nontrivial=True,
                       kind="sshclient-" + known + ("+adv-" + adv if adv else "") +
                       ("+strategy" if entry == "auth-strategy" else "") + ("+mixedcase" if host != "host17" else ""))
             # ---- oracle ----
             # an entry is "for this host" when stored under exactly the looked-up name, or a hash of it
             has_entry = any(hn == name or hn.startswith("|1|") for hn, _ in entries)
-            key_matches = has_entry and known in ("same", "hashed-same", "same+other-type", "same-under-lowercased-name")
+            key_matches = has_entry and sk == "rsa" and known in ("same", "hashed-same", "same+other-type",
+                                                                  "same-under-lowercased-name")
             if has_entry and not key_matches:
                 if auth_sent or s.srv.seen or st == "ok":
                     ctx.fail("sshclient-auth-despite-known-key-mismatch",
@@ -819,6 +888,146 @@ def cconnect_cases(ctx, w):
                 pass
             s.close()
     return rows
+
+
+# --------------------------------------------------------------------------
+# 3b. known_hosts FILES through the real parser (SSHClient.load_host_keys / load_system_host_keys)
+
+FILE_KINDS = ["plain-same", "tab-same", "multi-name-same", "hashed-same", "trailing-space-same", "comment+plain-same",
+              "plain-other", "other-host-same", "comment-only",
+              "revoked-same", "cert-authority-same", "revoked-same-tab", "revoked-hashed-same", "cert-authority-wildcard",
+              "plain-other+revoked-same", "unknown-marker-same"]
+
+
+def ref_trusts(text, host, key):
+    """Independent reference: does this known_hosts text establish `key` as a host key of `host`?  A line that
+    starts with a marker (@revoked, @cert-authority, anything with @) never does: a revoked key is to be refused,
+    a CA key is not a host key."""
+    import base64
+    import hashlib
+    import hmac
+    for line in text.split("\n"):
+        line = line.strip()
+        if not line or line.startswith("#"):
+            continue
+        f = line.split()
+        if f[0].startswith("@") or len(f) < 3:
+            continue
+        ok = False
+        for nm in f[0].split(","):
+            if nm.startswith("|1|"):
+                try:
+                    _, _, salt, digest = nm.split("|")
+                    mac = hmac.new(base64.b64decode(salt), host.encode(), hashlib.sha1).digest()
+                    ok = ok or base64.b64encode(mac).decode() == digest
+                except Exception:
+                    pass
+            else:
+                ok = ok or nm == host
+        if ok and f[1] == key.get_name() and f[2] == key.get_base64():
+            return True
+    return False
+
+
+def file_cases(ctx, w):
+    import os
+    import shutil
+    import tempfile
+    p = w.paramiko
+    from paramiko.hostkeys import HostKeys
+    host = "host17"
+    b64, b642 = w.rsa.get_base64(), w.rsa2.get_base64()
+    hh = HostKeys.hash_host(host)
+    texts = {
+        "plain-same": "%s ssh-rsa %s\n" % (host, b64),
+        "tab-same": "%s\tssh-rsa\t%s\n" % (host, b64),
+        "multi-name-same": "other.example,%s,10.0.0.1 ssh-rsa %s\n" % (host, b64),
+        "hashed-same": "%s ssh-rsa %s\n" % (hh, b64),
+        "trailing-space-same": "%s ssh-rsa %s \n" % (host, b64),
+        "comment+plain-same": "# a comment\n\n%s ssh-rsa %s comment here\n" % (host, b64),
+        "plain-other": "%s ssh-rsa %s\n" % (host, b642),
+        "other-host-same": "elsewhere.example ssh-rsa %s\n" % b64,
+        "comment-only": "# %s ssh-rsa %s\n" % (host, b64),
+        "revoked-same": "@revoked %s ssh-rsa %s\n" % (host, b64),
+        "cert-authority-same": "@cert-authority %s ssh-rsa %s\n" % (host, b64),
+        "revoked-same-tab": "@revoked\t%s\tssh-rsa\t%s\n" % (host, b64),
+        "revoked-hashed-same": "@revoked %s ssh-rsa %s\n" % (hh, b64),
+        "cert-authority-wildcard": "@cert-authority *,%s ssh-rsa %s\n" % (host, b64),
+        "plain-other+revoked-same": "%s ssh-rsa %s\n@revoked %s ssh-rsa %s\n" % (host, b642, host, b64),
+        "unknown-marker-same": "@trusted %s ssh-rsa %s\n" % (host, b64),
+    }
+    combos = [(k, how, pol) for k in FILE_KINDS for how in ("load_host_keys", "load_system_host_keys")
+              for pol in ("reject", "autoadd")]
+    if not ctx.thorough:
+        combos = [c for c in combos if c[2] == "reject" and (c[1] == "load_host_keys" or "@" in texts[c[0]])]
+    tmp = tempfile.mkdtemp(prefix="verif-c17-")
+    n = 0
+    try:
+        for kind, how, pol in combos:
+            fn = os.path.join(tmp, "known_hosts_%d" % n)
+            n += 1
+            with open(fn, "w") as f:
+                f.write(texts[kind])
+            calls = []
+
+            def rec(base):
+                class P(base):
+                    def missing_host_key(self, client, hostname, key):
+                        calls.append(hostname)
+                        return base.missing_host_key(self, client, hostname, key)
+                return P()
+
+            c = p.SSHClient()
+            c.set_missing_host_key_policy(rec(p.RejectPolicy if pol == "reject" else p.AutoAddPolicy))
+            load_exc = None
+            try:
+                getattr(c, how)(fn)
+            except Exception as e:  # noqa  (a file the parser refuses: nothing more is trusted)
+                load_exc = e
+            s = Session(w)
+            try:
+                s.start_server()
+
+                def factory(sock, **kw):
+                    t = w.HookClient(sock, packetizer_class=s._client_packetizer(), **kw)
+                    t.c17_obs = s.obs
+                    s.tc = t
+                    return t
+
+                def go():
+                    with warnings.catch_warnings():
+                        warnings.simplefilter("ignore")
+                        c.connect(host, port=22, username=USER, password=PASSWORD, sock=s.csock,
+                                  allow_agent=False, look_for_keys=False, transport_factory=factory, timeout=15)
+
+                st, v = with_watchdog(go, 25)
+                auth_sent = bool(s.server_saw(5) or s.server_saw(50))
+                trusted = ref_trusts(texts[kind], host, w.rsa)
+                case = {"side": "sshclient-known-hosts-file", "file": texts[kind], "kind": kind, "loader": how,
+                        "policy": pol, "load_exception": repr(load_exc) if load_exc else None}
+                ctx.count(("file", kind, how, pol), nontrivial=True, kind="sshclient-file-" + kind)
+                if not trusted and pol == "reject" and (auth_sent or s.srv.seen or st == "ok"):
+                    ctx.fail("sshclient-trusts-untrusted-known-hosts-line",
+                             "the known_hosts file does not establish the server's key as a host key of the host "
+                             "(marker / other key / other host / comment) but SSHClient under RejectPolicy "
+                             "authenticated to it", case=case, expected="exception, nothing sent",
+                             observed={"st": st, "auth_sent": auth_sent, "policy_calls": list(calls)})
+                if trusted and "@" not in texts[kind] and load_exc is None and (not auth_sent or calls):
+                    ctx.fail("sshclient-honest-failed", "a plain known_hosts line for the server's key was not honoured",
+                             case=case, observed=repr(v))
+                if st == "hang":
+                    ctx.fail("sshclient-connect-hang", "SSHClient.connect did not return", case=case)
+                if PASSWORD.encode("utf-8") in bytes(s.csock.tap):
+                    ctx.fail("password-in-plaintext", "the password appears in the raw byte stream", case=case)
+            finally:
+                try:
+                    c.close()
+                except Exception:
+                    pass
+                s.close()
+    finally:
+        shutil.rmtree(tmp, ignore_errors=True)
+    return n
 
 
 # --------------------------------------------------------------------------
@@ -1012,7 +1221,7 @@ def run(ctx):
                 "(quick: seeded 60 % sample) or after the handshake, or signing other data; Transport.connect over "
                 "hostkey argument {none, same, other same type, other types} x bad signature x credential; "
                 "SSHClient.connect(sock=), through password= and through auth_strategy=, host names in lower and mixed case, over 10 known_hosts contents x {user, system} x 5 policies x {22, 2222} "
-                "(quick: all Reject/AutoAdd user cases, every stored-key mismatch x accepting policy, + 12 sampled + 24 with a server advertising gss-X / unknown kex names; thorough: the whole grid, every mismatch / unknown-host case again with a gss-advertising server + 40 sampled others, 40 with an unknown name, and the whole user-store grid through auth_strategy= and with a mixed-case host name).  policies refusing by raising SSHException / OSError subclasses / ValueError / KeyError / EOFError / a BaseException; the SAME SSHClient used for a second connect after a first connect / lookup / membership test and a mutation of its host key store (clear, del, pop, clear+load of another file, del+add, __setitem__, add of another type).  Every case is a distinct "
+                "(quick: all Reject/AutoAdd user cases, every stored-key mismatch x accepting policy, + 12 sampled + 24 with a server advertising gss-X / unknown kex names; thorough: the whole grid, every mismatch / unknown-host case again with a gss-advertising server + 40 sampled others, 40 with an unknown name, and the whole user-store grid through auth_strategy= and with a mixed-case host name).  policies refusing by raising SSHException / OSError subclasses / ValueError / KeyError / EOFError / a BaseException; the SAME SSHClient used for a second connect after a first connect / lookup / membership test and a mutation of its host key store (clear, del, pop, clear+load of another file, del+add, __setitem__, add of another type).  servers presenting a near-miss key (RSA modulus congruent to the stored one modulo the hash modulus; same modulus, other exponent); known_hosts FILES loaded through load_host_keys / load_system_host_keys (plain, tab, multi-name, hashed, comments, @revoked / @cert-authority / unknown marker lines) judged by an independent reference parser.  Every case is a distinct "
                 "script and reaches the guard / gating / comparison code, hence non-trivial.")
     ctx.trusted += ["model coq/Model/C17.v is hand-written; tied to transport.py / client.py / auth_handler.py by "
                     "gen/c17.py (AST ordering checks, fail-closed) and this scripted differential run",
@@ -1073,6 +1282,8 @@ def run(ctx):
     trows = tconnect_cases(ctx, w)
     crows = cconnect_cases(ctx, w)
     crows += reuse_cases(ctx, w)
+    nf = file_cases(ctx, w)
+    ctx.log("known_hosts files through the real parser: %d connects" % nf)
     if crows:
         ctx.sample({"sshclient": crows[0][0], "impl": crows[0][2]})
 
